@@ -500,6 +500,7 @@ struct H
 #endif
 #ifndef VF_ARRAY
       s += poolCanon(*v[w], *v[1 - w]);
+      s += linkCanon(*v[w]);
 #endif
     }
     return s;
